@@ -12,6 +12,12 @@ points and weighting): an object created with other custom weights (of the same 
 built-in weighting or other points, optionally switched built-in -> custom -> built-in, gets the case's points and
 weighting through the public setters (points then weights, weights then points, or only the one that differs)
 and is refitted with update_linreg().  Every history must equal the same specification value.
+
+calibrate cases apply a line (given, fitted, the identity) to responses built on it; the line may lie at, one ulp beside
+or anywhere within 1e-2 of the identity ("returns data unchanged" holds for the exact identity only:
+`calibrate_unchanged_iff_identity`), on data from ordinary units down to trace levels.  Session cases run several
+operations on ONE object (attributes assigned, refits incl. fewer than two usable rows, calibrate in between) against
+`Pew.Calib.run` / `finalState` ("c06.session"): every calibrate call answers for the line held at that moment.
 """
 import itertools
 import math
@@ -33,6 +39,58 @@ LADDERS = [
     [0, 0.5, 1, 2, 4, 8], [0, 1, 10, 100, 1000], [0, 0.05, 0.1, 0.2, 0.5, 1.0], [0, 25, 50, 75, 100],
     [0, 0.001, 0.01, 0.1, 1, 10, 100, 1000],
 ]
+
+# scales of a level ladder: ordinary units down to trace levels (mol/L ladders of 1e-9 .. 1e-12)
+TRACE_SCALES = [1.0, 1.0, 1e-3, 1e-6, 1e-9, 1e-12, 1e3]
+NEAR_BINS = [(0.0, "0"), (1e-12, "<=1e-12"), (1e-9, "<=1e-9"), (1e-6, "<=1e-6"), (1e-3, "<=1e-3")]
+
+
+def near_one(rng):
+    """a gradient at 1, one or a few ulps beside it, or 1e-15 .. 1e-2 away from it (either side)"""
+    r = rng.random()
+    if r < 0.18:
+        return 1.0
+    if r < 0.36:
+        return rng.choice([1.0 + 2.0 ** -52, 1.0 - 2.0 ** -53, 1.0 + 2.0 ** -50, 1.0 - 2.0 ** -51])
+    return 1.0 + rng.choice([-1.0, 1.0]) * 10.0 ** rng.uniform(-15, -2)
+
+
+def near_zero(rng, scale):
+    """an intercept at 0, at the bottom of the float range, small against the data scale, or small absolutely"""
+    r = rng.random()
+    if r < 0.18:
+        return 0.0
+    s = rng.choice([-1.0, 1.0, 1.0])
+    if r < 0.3:
+        return s * rng.choice([5e-324, 2.2250738585072014e-308, 1e-300, 1e-100, 1e-30])
+    if r < 0.6:
+        return s * scale * 10.0 ** rng.uniform(-12, -1)
+    return s * 10.0 ** rng.uniform(-20, -3)
+
+
+def near_bin(d):
+    d = abs(d)
+    for lim, name in NEAR_BINS:
+        if d <= lim:
+            return name
+    return ">1e-3"
+
+
+def line_class(g, c):
+    """how close a line is to the identity (for the feature counts only)"""
+    if g == 1.0 and c == 0.0:
+        return "identity"
+    return "near-identity" if abs(g - 1.0) <= 1e-3 and abs(c) <= 1e-3 else "line"
+
+
+def gen_conc(rng, size, scale=1.0):
+    """data for calibrate: NaN, 0, round levels and log-uniform values, in units of `scale`"""
+    conc = []
+    for _ in range(size):
+        r = rng.random()
+        conc.append(None if r < 0.1 else 0.0 if r < 0.2 else float(rng.choice([1, 2, 5, 10, 100])) * scale
+                    if r < 0.4 else 10.0 ** rng.uniform(-4, 5) * scale)
+    return conc
 
 
 def fnum(v):
@@ -380,6 +438,32 @@ def is_identity(got):
             and got["rsq"] is None and got["error"] is None)
 
 
+def judge_calibrate(impl, model, spec, shape, resp, g, c):
+    """the array returned by calibrate for the responses `resp` = fl(g*x + c) against the mechanism's value on those
+    responses and against the concentrations x; an identity calibration: unchanged means bit for bit"""
+    eps = 2.0 ** -52
+    tiny = 2.0 ** -1074  # one rounding in the subnormal range (an exactly cancelling difference divided by g)
+    shape_ok = impl["shape"] == list(shape)
+
+    def cmp(want, tolf):
+        if len(want) != len(impl["data"]):
+            return False
+        for a, b, x in zip(impl["data"], want, spec["data"]):
+            if (a is None) != (b is None):
+                return False
+            if a is not None and abs(a - b) > tolf(b, x):
+                return False
+        return True
+
+    if g == 1.0 and c == 0.0:
+        ok = shape_ok and [core.tok(nan(v)) for v in impl["data"]] == [core.tok(float(v)) for v in resp.ravel()]
+        return ok, ok
+    m_ok = shape_ok and cmp(model["data"], lambda b, x: 4 * eps * abs(b) + tiny)
+    # resp = fl(g*x + c) carries up to 2 roundings relative to |g x| + |c|
+    s_ok = shape_ok and cmp(spec["data"], lambda b, x: 8 * eps * (abs(x) + abs(c / g)) + tiny)
+    return m_ok, s_ok
+
+
 class C06(Prop):
     id = "C06"
     anchored = ["src/pewlib/calibration.py"]
@@ -391,16 +475,27 @@ class C06(Prop):
             "(sampled above); every fit case is also reached through histories on one object (prior object with custom "
             "weights of the same / another length, another built-in weighting, other points, built-in -> custom -> "
             "built-in; the case's points and weighting assigned by the setters in both orders, or only the differing "
-            "one, then update_linreg()); calibrate cases: arrays of 0..3 dimensions incl. empty and NaN, gradients over decades, "
-            "identity and fitted calibrations. non-trivial = carries a NaN row, a zero level, a permutation, custom "
-            "weights, a history or a non-1-D array; distinct by canonical case hash")
+            "one, then update_linreg()); 8% of the fit cases are same-unit ladders (gradient at / next to 1, blank offset "
+            "zero or small, noise 0..1e-3) at scales 1e3..1e-12 (trace levels); calibrate cases: arrays of 0..3 dimensions "
+            "incl. empty and NaN, gradients over decades, identity and fitted calibrations, lines at / next to the identity "
+            "(gradient 1, 1 +- ulps, 1 +- 1e-15..1e-2; intercept 0, +-5e-324..1e-30, 1e-12..1e-1 of the data scale, "
+            "1e-20..1e-3; data at scales 1e3..1e-12; given to the constructor as float / int / np.float64, or fitted from a "
+            "same-unit ladder; a 7x8 grid of them on every run); sessions (6%): one object, 2..4 operations that set its "
+            "line (attributes assigned: any line / next to the identity / the identity; refitted on an ordinary ladder, a "
+            "same-unit ladder, fewer than two usable rows, no rows) with calibrate called before, between (once or twice) "
+            "and after. non-trivial = carries a NaN row, a zero level, a permutation, custom weights, a history, a "
+            "non-1-D array, a line at or next to the identity, or is a session; distinct by canonical case hash")
     trusted = [
         "np.polynomial.polynomial.polyfit(x, y, 1, w=sqrt(w)) returns the minimiser of the weighted residual sum of a "
         "full-rank system and np.cov(aweights=w) the weighted covariance matrix; the correspondence measures both "
         "against the closed forms at relative 1e-9 (column-scaled norm), loosened to the first-order perturbation bound "
         "1e-9 + 32*2^-52*(kappa + kappa^2*tan(theta)), kappa^2 = 4/rho, rho = D/(Sw*Swxx), when that is larger; cases with "
         "rho < 1e-6 or with that bound above 1e-5 are undetermined (counted, never a verdict)",
-        "float evaluation of 1/x, 1/x**2 and of (data - intercept)/gradient is within 1e-15 relative of the exact value",
+        "float evaluation of 1/x, 1/x**2 and of (data - intercept)/gradient is within 1e-15 relative of the exact value "
+        "(plus one rounding of 2^-1074 in the subnormal range)",
+        "in a session a refit on two or more usable rows stores polyfit's line: the line observed on the object is "
+        "adopted as the model's state for the following calibrate calls (the fit itself is judged by the fit cases); "
+        "assigned lines and the identity after fewer than two usable rows are compared exactly",
     ]
     assumptions = [
         "r² is compared only where the responses are not (nearly) constant: Dy/(Sw*Swyy) >= 1e-10 (DESIGN 6a)",
@@ -421,12 +516,18 @@ class C06(Prop):
     ]
 
     # ------------------------------------------------------------------ generation
-    def gen_fit(self, rng, tier):
+    def gen_fit(self, rng, tier, unit=None):
+        """unit: the responses are read in the unit of the concentrations (gradient at or next to 1, blank offset
+        zero or small against the ladder), on ladders from ordinary units down to trace levels (scale 1e-12)"""
         big = tier == "thorough"
+        if unit is None:
+            unit = rng.random() < 0.08
         ladder = rng.choice(LADDERS)
         scale = 10.0 ** rng.choice([0, 0, 0, -3, -2, -1, 1, 2, 3])
         mode = rng.choice(["ladder"] * 8 + ["few", "same", "zeros", "close"])
         n = rng.choice([2, 2, 3, 3, 4, 4, 5, 5, 6, 7, 8] + ([10, 12] if big else []))
+        if unit:
+            scale, mode = rng.choice(TRACE_SCALES), "ladder"
         if mode == "few":
             n = rng.choice([0, 1, 1])
         levels = list(ladder)
@@ -451,9 +552,18 @@ class C06(Prop):
         g = 10.0 ** rng.uniform(-2, 6)
         c = rng.choice([0.0, 0.0, 10.0 ** rng.uniform(-1, 4), g * scale * rng.uniform(0, 2)])
         ymode = rng.choice(["noise", "noise", "noise", "exact", "scatter", "const"] if mode != "few" else ["noise"])
+        if unit:
+            ymode = "unit"
+            g = rng.choice([1.0, near_one(rng), 1.0 + rng.choice([-1.0, 1.0]) * 10.0 ** rng.uniform(-9, -2)])
+            c = rng.choice([0.0, scale * 10.0 ** rng.uniform(-6, 0), scale * rng.uniform(0, 2), 10.0 ** rng.uniform(-14, -6)])
+            sigma = rng.choice([0.0, 1e-12, 1e-8, 1e-5, 1e-3])
         ys = []
         for x in xs:
-            if ymode == "noise":
+            if ymode == "unit":
+                y = (g * x + c) * (1 + rng.gauss(0, sigma))
+                if y <= 0:  # a blank without offset still reads something
+                    y = scale * 10.0 ** rng.uniform(-6, -3)
+            elif ymode == "noise":
                 y = (g * x + c) * (1 + rng.gauss(0, rng.choice([0.001, 0.02, 0.1]))) + abs(rng.gauss(0, 0.01 * g * scale))
             elif ymode == "exact":
                 y = float(round(g)) * x + float(round(c))
@@ -501,28 +611,72 @@ class C06(Prop):
     def gen_cal(self, rng, tier):
         shape = rng.choice([[], [0], [1], [5], [2, 3], [3, 1], [0, 3], [2, 2, 2], [7], [4, 4]])
         size = int(np.prod(shape)) if shape else 1
-        kind = rng.choice(["line", "line", "line", "identity", "fitted", "few"])
-        conc = []
-        for _ in range(size):
-            r = rng.random()
-            conc.append(None if r < 0.1 else 0.0 if r < 0.2 else float(rng.choice([1, 2, 5, 10, 100]))
-                        if r < 0.4 else 10.0 ** rng.uniform(-4, 5))
-        case = {"kind": "calibrate", "mode": kind, "shape": shape, "conc": conc}
+        kind = rng.choice(["line", "line", "line", "identity", "fitted", "few", "near", "near", "fitted-unit"])
+        case = {"kind": "calibrate", "mode": kind, "shape": shape, "conc": gen_conc(rng, size)}
         if kind == "line":
             case["g"] = rng.choice([10.0 ** rng.uniform(-3, 7), float(rng.choice([1, 2, 3, 1000])), 1.0, -2.5])
             case["c"] = rng.choice([0.0, 10.0 ** rng.uniform(-2, 5), -10.0 ** rng.uniform(-2, 3), float(rng.randint(1, 50))])
             if case["g"] == 1.0 and rng.random() < 0.5:
                 case["c"] = 0.0
+            if case["g"] == float(round(case["g"])) and case["c"] == float(round(case["c"])) and rng.random() < 0.5:
+                case["ptype"] = "int"
+        elif kind == "near":
+            # a line at, next to or close to the identity: gradient 1 (+- ulps .. 1e-2), intercept 0 (+- the smallest
+            # float .. 1e-3 of the data scale), data from ordinary units down to trace levels
+            scale = rng.choice(TRACE_SCALES)
+            case.update(mode="line", g=near_one(rng), c=near_zero(rng, scale), conc=gen_conc(rng, size, scale))
+            if rng.random() < 0.3:
+                case["ptype"] = "np.float64"
         elif kind == "fitted":
-            f = self.gen_fit(rng, tier)
+            f = self.gen_fit(rng, tier, unit=False)
             case["fit"] = {"rows": f["rows"], "weighting": f["weighting"], "cw": f["cw"]}
+        elif kind == "fitted-unit":
+            f = self.gen_fit(rng, tier, unit=True)
+            xs = [r[0] for r in f["rows"] if r[0]]
+            case.update(mode="fitted", conc=gen_conc(rng, size, max(xs) if xs else 1.0),
+                        fit={"rows": f["rows"], "weighting": f["weighting"], "cw": f["cw"]})
         elif kind == "few":
             case["fit"] = {"rows": rng.choice([[], [[1.0, 2.0]], [[1.0, 2.0], [2.0, None]], [[None, None], [None, 1.0]]]),
                            "weighting": rng.choice(BUILTIN), "cw": None}
         return case
 
+    def gen_session(self, rng, tier):
+        """several operations on ONE object, `calibrate` called in between: the line is assigned to the public
+        attributes (any line, next to the identity, the identity), refitted on other points (an ordinary ladder, a
+        same-unit ladder, fewer than two usable rows, no rows) - every calibrate call answers for the line the object
+        holds at that moment"""
+        shape = rng.choice([[], [1], [3], [5], [2, 3], [0], [2, 2, 2]])
+        size = int(np.prod(shape)) if shape else 1
+        scale = rng.choice(TRACE_SCALES)
+        line = lambda: {"g": rng.choice([10.0 ** rng.uniform(-3, 7), float(rng.choice([2, 3, 1000])), 1.0, -2.5]),
+                        "c": rng.choice([0.0, 10.0 ** rng.uniform(-2, 5), -10.0 ** rng.uniform(-2, 3), float(rng.randint(1, 50))])}
+        near = lambda: {"g": near_one(rng), "c": near_zero(rng, scale)}
+        few = lambda: rng.choice([[[1.0, 2.0]], [[1.0 * scale, 2.0], [2.0 * scale, None]], [[None, None], [None, 1.0]],
+                                  [[scale, None], [None, 3.0], [2 * scale, 5.0]]])
+        start = rng.choice([None, None, line(), near()])
+        steps = [{"op": "calibrate"}] if rng.random() < 0.5 else []
+        for _ in range(rng.randint(2, 4)):
+            k = rng.choice(["assign-line", "assign-near", "assign-near", "assign-identity", "fit", "fit-unit", "few", "few", "empty"])
+            if k.startswith("assign"):
+                steps.append({"op": "assign", **({"g": 1.0, "c": 0.0} if k == "assign-identity" else near() if k == "assign-near" else line())})
+            else:
+                if k in ("fit", "fit-unit"):
+                    f = self.gen_fit(rng, tier, unit=(k == "fit-unit"))
+                    f = {"rows": f["rows"], "weighting": f["weighting"], "cw": f["cw"]}
+                else:
+                    f = {"rows": few() if k == "few" else [], "weighting": rng.choice(BUILTIN), "cw": None}
+                steps.append({"op": "refit", **f})
+            if rng.random() < 0.85:
+                steps.append({"op": "calibrate"})
+                if rng.random() < 0.15:
+                    steps.append({"op": "calibrate"})
+        if steps[-1]["op"] != "calibrate":
+            steps.append({"op": "calibrate"})
+        return {"kind": "session", "shape": shape, "conc": gen_conc(rng, size, scale), "start": start, "steps": steps}
+
     def generate(self, rng, tier):
-        return self.gen_cal(rng, tier) if rng.random() < 0.2 else self.gen_fit(rng, tier)
+        r = rng.random()
+        return self.gen_session(rng, tier) if r < 0.06 else self.gen_cal(rng, tier) if r < 0.26 else self.gen_fit(rng, tier)
 
     def targeted(self, tier):
         for i, c in enumerate(self.targeted_plain(tier)):
@@ -574,6 +728,33 @@ class C06(Prop):
             yield {"kind": "calibrate", "mode": "fitted", "shape": shape, "conc": conc,
                    "fit": {"rows": base, "weighting": "1/x", "cw": None}}
 
+        # lines at / next to / close to the identity, decade by decade, on data at the scale of the intercept
+        for i, dg in enumerate([0.0, 2.0 ** -52, -2.0 ** -53, 1e-12, -1e-9, 1e-6, -1e-3]):
+            for j, c in enumerate([0.0, 5e-324, -1e-300, 1e-20, -1e-12, 1e-9, -1e-6, 1e-3]):
+                d = abs(c) if abs(c) >= 1e-20 else 1.0
+                yield {"kind": "calibrate", "mode": "line", "shape": [4], "conc": [0.0, d, None, 1.0], "g": 1.0 + dg, "c": c,
+                       **({"ptype": "np.float64"} if (i + j) % 3 == 0 else {})}
+        yield {"kind": "calibrate", "mode": "line", "shape": [2], "conc": [0.0, 3.0], "g": 1, "c": 0, "ptype": "int"}
+        yield {"kind": "calibrate", "mode": "line", "shape": [2], "conc": [0.0, 3.0], "g": 2, "c": 3, "ptype": "int"}
+        # same-unit ladders (gradient next to 1) from ordinary units down to trace levels, fitted and applied
+        for k, sc in enumerate([1.0, 1e-3, 1e-6, 1e-9, 1e-12]):
+            for off in (0.0, 0.4 * sc):
+                rows = [[x * sc, x * sc * (1 + 3e-6) + off + (1e-3 * sc if x == 0 and off == 0 else 0.0)] for x in (0.0, 1.0, 2.0, 5.0, 10.0)]
+                yield {"kind": "calibrate", "mode": "fitted", "shape": [3], "conc": [0.0, 2.5 * sc, 7.0 * sc],
+                       "fit": {"rows": rows, "weighting": BUILTIN[k % len(BUILTIN)], "cw": None}}
+                yield {"kind": "fit", "rows": rows, "weighting": BUILTIN[(k + 3) % len(BUILTIN)], "cw": None, "perms": []}
+        # sessions on one object
+        few = {"op": "refit", "rows": [[1.0, 2.0], [2.0, None]], "weighting": "1/x", "cw": None}
+        fit = {"op": "refit", "rows": base, "weighting": "1/x", "cw": None}
+        cal = {"op": "calibrate"}
+        for shape in ([], [3]):
+            conc = [0.0, 2.0, None][:int(np.prod(shape)) if shape else 1]
+            for start in (None, {"g": 2.0, "c": 3.0}, {"g": 1.0 + 1e-7, "c": 1e-9}):
+                yield {"kind": "session", "shape": shape, "conc": conc, "start": start, "steps": [
+                    cal, fit, cal, few, cal, {"op": "assign", "g": 1.0 - 1e-9, "c": -1e-12}, cal, cal,
+                    {"op": "assign", "g": 1.0, "c": 0.0}, cal, {"op": "assign", "g": 4.0, "c": 0.5}, cal,
+                    {"op": "refit", "rows": [], "weighting": "Equal", "cw": None}, cal]}
+
     def search_extra(self, tier):
         rng = core.case_rng(0, self.id, "extra", 0)
         for i in range(400):
@@ -585,6 +766,8 @@ class C06(Prop):
     def evaluate(self, case, ctx):
         if case["kind"] == "fit":
             return self.eval_fit(case, ctx)
+        if case["kind"] == "session":
+            return self.eval_session(case, ctx)
         return self.eval_cal(case, ctx)
 
     def eval_fit(self, case, ctx):
@@ -684,6 +867,11 @@ class C06(Prop):
         feats = self.fit_features(case, clean_rows, fitted, hyp, check_rsq, hist_feats)
         if dominant:  # always counted in the evidence; only r² is skipped, gradient/intercept are still compared
             feats = set(feats) | {"dominant-weight(1-Σw²/(Σw)²<1e-12: r2 not compared)"}
+        if feats and fitted and hyp:
+            if abs(spec_fit["gradient"] - 1.0) <= 1e-3:
+                feats = set(feats) | {"same-unit-response(|gradient-1|<=1e-3)"}
+            if max(x for x, _ in clean_rows) <= 1e-6:
+                feats = set(feats) | {"trace-level-ladder(max x<=1e-6)"}
         if feats and n_finite_required:
             feats = set(feats) | {"weights:finite-clause-binds"}
         if feats and weighting in BUILTIN and weighting != "Equal" and not n_finite_required and rows:
@@ -761,7 +949,11 @@ class C06(Prop):
         with warnings.catch_warnings():
             warnings.simplefilter("ignore")
             if mode == "line":
-                cal = Calibration(intercept=case["c"], gradient=case["g"])
+                conv = {"float": float, "int": int, "np.float64": np.float64}[case.get("ptype", "float")]
+                if conv is int and (case["g"] != round(case["g"]) or case["c"] != round(case["c"])):
+                    conv = float
+                cal = Calibration(intercept=conv(case["c"]), gradient=conv(case["g"]))
+                feats.add("line-as:" + conv.__name__)
             elif mode == "identity":
                 cal = Calibration()
             else:
@@ -785,6 +977,13 @@ class C06(Prop):
                                {"gradient": 1.0, "intercept": 0.0}, features=feats)
         if g == 1.0 and c == 0.0:
             feats.add("identity-shortcut")
+        near = line_class(g, c) == "near-identity"
+        if near:
+            feats |= {"near-identity", "near-identity:|g-1|" + near_bin(g - 1.0), "near-identity:|c|" + near_bin(c),
+                      "near-identity:" + ("fitted" if mode == "fitted" else "given")}
+            finite = conc[np.isfinite(conc)]
+            if finite.size and np.max(np.abs(finite)) <= 1e-6:
+                feats.add("near-identity:trace-level-data(<=1e-6)")
         with np.errstate(all="ignore"):
             resp = np.asarray(g * conc + c, dtype=np.float64)
         if not np.all(np.isfinite(resp) | np.isnan(resp)):
@@ -806,34 +1005,129 @@ class C06(Prop):
         spec = {"shape": list(shape), "data": [qf(v) for v in rep["spec"]]}
         if "raises" in impl:
             return outcome(impl, model, spec, spec_ok=False, model_ok=False, features=feats)
-        eps = 2.0 ** -52
-        shape_ok = impl["shape"] == list(shape)
-        identity = g == 1.0 and c == 0.0
-
-        def cmp(want, tolf):
-            if len(want) != len(impl["data"]):
-                return False
-            for a, b, x in zip(impl["data"], want, spec["data"]):
-                if (a is None) != (b is None):
-                    return False
-                if a is not None and abs(a - b) > tolf(b, x):
-                    return False
-            return True
-
-        if identity:  # unchanged means bit for bit
-            m_ok = s_ok = shape_ok and [core.tok(nan(v)) for v in impl["data"]] == [core.tok(float(v)) for v in resp.ravel()]
-        else:
-            m_ok = shape_ok and cmp(model["data"], lambda b, x: 4 * eps * abs(b))
-            # resp = fl(g*x + c) carries up to 2 roundings relative to |g x| + |c|
-            s_ok = shape_ok and cmp(spec["data"], lambda b, x: 8 * eps * (abs(x) + abs(c / g)))
-        nontrivial = len(shape) != 1 or identity or "nan-data" in feats
+        m_ok, s_ok = judge_calibrate(impl, model, spec, shape, resp, g, c)
+        nontrivial = len(shape) != 1 or (g == 1.0 and c == 0.0) or near or "nan-data" in feats
         return outcome(impl, model, spec, spec_ok=s_ok, model_ok=m_ok, features=feats if nontrivial else [])
+
+    def eval_session(self, case, ctx):
+        """one object, several operations; judged: the line the object holds after every operation that sets it
+        (exactly, against the state of `Pew.Calib.finalState`; a refit on two or more usable rows stores polyfit's
+        line, which is adopted - fits are judged by the fit cases) and every array returned by calibrate
+        (`Pew.Calib.run`), as in a calibrate case"""
+        from pewlib.calibration import Calibration
+
+        shape, start = case["shape"], case["start"]
+        conc = np.array([nan(v) for v in case["conc"]], dtype=np.float64).reshape(shape)
+        concs = [orat(float(v)) for v in conc.ravel()]
+        trivial = outcome({}, {}, {}, hyp=False, features=[], note="session not judged (degenerate line / malformed)")
+        ok_num = lambda v: isinstance(v, (int, float)) and math.isfinite(v)
+        if start is not None and not (ok_num(start["g"]) and ok_num(start["c"]) and start["g"] != 0):
+            return trivial
+        impl_steps, drv_steps, resps, via = [], [], [], []
+        with warnings.catch_warnings():
+            warnings.simplefilter("ignore")
+            cal = Calibration() if start is None else Calibration(intercept=start["c"], gradient=start["g"])
+            how = "constructor"
+            for st in case["steps"]:
+                if st["op"] == "assign":
+                    if not (ok_num(st["g"]) and ok_num(st["c"])) or st["g"] == 0:
+                        break
+                    cal.gradient, cal.intercept = st["g"], st["c"]
+                    how = "assign"
+                    drv_steps.append({"op": "assign", "g": core.rat(st["g"]), "c": core.rat(st["c"])})
+                    impl_steps.append({"line": [float(cal.gradient), float(cal.intercept)]})
+                elif st["op"] == "refit":
+                    rows, w, cw = st["rows"], st["weighting"], st["cw"]
+                    if any(len(r) != 2 for r in rows) or (cw is None) != (w in BUILTIN) or \
+                            (cw is not None and (len(cw) != len(rows) or
+                                                 any(cw[i] is None and not is_nan_row(r) for i, r in enumerate(rows)))):
+                        break
+                    try:
+                        with np.errstate(all="ignore"):
+                            cal.points = np_points(rows)
+                            cal.weights = np_weights(w, cw)
+                            cal.update_linreg()
+                    except Exception:
+                        # the fit itself failed: judge it as a fit case (hypothesis logic lives there)
+                        return self.eval_fit({"kind": "fit", "rows": rows, "weighting": w, "cw": cw, "perms": []}, ctx)
+                    how = "refit"
+                    g, c = cal.gradient, cal.intercept
+                    obs = [core.rat(float(g)), core.rat(float(c))] if ok_num(float(g)) and ok_num(float(c)) else None
+                    drv_steps.append({"op": "refit", "weighting": w, "custom": cw is not None, "observed": obs, "rows": [
+                        [orat(nan(x)), orat(nan(y)), None if cw is None else orat(nan(cw[i]))] for i, (x, y) in enumerate(rows)]})
+                    impl_steps.append({"line": None if obs is None else [float(g), float(c)]})
+                    if obs is None or float(g) == 0.0:  # not a usable line (inside the hypothesis the fit cases report it)
+                        break
+                elif st["op"] == "calibrate":
+                    g, c = float(cal.gradient), float(cal.intercept)
+                    with np.errstate(all="ignore"):
+                        resp = np.asarray(g * conc + c, dtype=np.float64)
+                    if not np.all(np.isfinite(resp) | np.isnan(resp)):
+                        break
+                    try:
+                        with np.errstate(all="ignore"):
+                            out = np.asarray(cal.calibrate(resp.copy()))
+                        impl_steps.append({"shape": list(out.shape), "data": [fnum(v) for v in out.ravel().astype(np.float64)]})
+                    except Exception as e:
+                        impl_steps.append({"raises": type(e).__name__, "msg": str(e)[:200]})
+                    drv_steps.append({"op": "calibrate", "responses": [orat(float(v)) for v in resp.ravel()], "concentrations": concs})
+                    resps.append(resp)
+                    via.append(how)
+                    how = "same-line"
+                else:
+                    return trivial
+        if not resps:
+            return trivial
+        rep = ctx.driver.call("c06.session", gradient=core.rat(1.0 if start is None else start["g"]),
+                              intercept=core.rat(0.0 if start is None else start["c"]), steps=drv_steps)["steps"]
+        model_steps, spec_steps = [], []
+        m_ok = s_ok = True
+        feats, k, prev = {"session", f"ndim{len(shape)}"}, 0, None
+        for got, r in zip(impl_steps, rep):
+            g, c = unrat(r["gradient"]), unrat(r["intercept"])
+            if r["op"] != "calibrate":
+                if r["op"] == "refit" and r["fitted"] and not r["adopted"]:
+                    break  # cannot happen: a fitted line that is not usable ends the session above
+                line = {"line": [float(g), float(c)]}
+                model_steps.append(line)
+                spec_steps.append(line)
+                if got["line"] is None or Fraction(got["line"][0]) != g or Fraction(got["line"][1]) != c:
+                    m_ok = s_ok = False  # e.g. fewer than two usable rows did not reset the line to the identity
+                if r["op"] == "refit":
+                    feats.add("session:refit-" + ("fitted" if r["fitted"] else "few-points->identity"))
+                continue
+            if not r["on_line"]:
+                raise core.InternalError("driver: calibrate on the exact line does not return the concentrations (contradicts calibrate_inverts)")
+            model = {"shape": list(shape), "data": [qf(v) for v in r["model"]]}
+            spec = {"shape": list(shape), "data": [qf(v) for v in r["spec"]]}
+            model_steps.append(model)
+            spec_steps.append(spec)
+            if "raises" in got:
+                m_ok = s_ok = False
+            else:
+                a, b = judge_calibrate(got, model, spec, shape, resps[k], float(g), float(c))
+                m_ok, s_ok = m_ok and a, s_ok and b
+            cls = line_class(float(g), float(c))
+            feats |= {"session:calibrate-on-" + cls, f"session:{cls}-via-{via[k]}"}
+            if prev is not None:
+                feats.add(f"session:{prev}->{cls}" if via[k] != "same-line" else "session:calibrate-twice")
+            prev = cls
+            k += 1
+        return outcome({"steps": impl_steps}, {"steps": model_steps}, {"steps": spec_steps}, spec_ok=s_ok, model_ok=m_ok,
+                       features=feats, note=f"session: {len(drv_steps)} operations, {len(resps)} calibrate calls")
 
     # ------------------------------------------------------------------ shrinking
     def shrink(self, case):
         if case["kind"] != "fit":
+            if case["kind"] == "session":
+                steps = case["steps"]
+                for k in range(len(steps)):
+                    yield {**case, "steps": steps[:k] + steps[k + 1:]}
+                if case["start"] is not None:
+                    yield {**case, "start": None}
             if len(case["shape"]) > 1 or (case["shape"] and case["shape"][0] > 1):
-                yield {**case, "shape": [1], "conc": case["conc"][:1]}
+                for i in range(len(case["conc"])):
+                    yield {**case, "shape": [1], "conc": case["conc"][i:i + 1]}
             return
         rows, cw, perms = case["rows"], case["cw"], case["perms"]
         hists = case.get("hists", [])
